@@ -3,7 +3,7 @@ from .common import *
 
 RULE = ("sign with callback outcome {accept, reject} x key states (first, middle, radix boundaries, last, wiped, beyond) x failing preconditions "
         "(wrong length, bad parameter byte) x {no aux, fresh aux, filled aux, corrupted aux}; oracle on the library's answers: ok => exactly one "
-        "callback with the complete successor key and accept; err => no callback, or one rejected callback; never more than one; keys of 35 and 40 bits total height (7 and 8 levels of H5) at their boundary and last states; the protocol under the C14 configurations with keys at the largest permitted parameters of every level")
+        "callback with the complete successor key and accept; err => no callback, or one rejected callback; never more than one; keys of 35 and 40 bits total height (7 and 8 levels of H5) at their boundary and last states; the protocol under the C14 configurations with keys at the largest permitted parameters of every level; try_sign on the in-memory key at first / last / random states")
 ASSUMPTIONS = ["the order of effects inside one call is observed through the callback trace only"]
 
 
@@ -70,6 +70,18 @@ def run(ctx):
             for cb in ("accept", "reject"):
                 for ax in (None, bytes(300)):
                     cases.append(Case(sign_line(H, pk.blob(7), b"limit", cb, ax), "sign/siglen-limit/%s" % cb, {"key": pk, "c": 7, "cb": cb, "limit": True}))
+    # the in-memory signing key goes through the same protocol: after try_sign it must hold the complete successor (at the last
+    # leaf: the wiped key), never a mixture of old and new bytes
+    tcases = []
+    for k in keys:
+        for c in sorted({0, 1, k.lifetime - 2, k.lifetime - 1, rng.randrange(k.lifetime)}):
+            if 0 <= c < k.lifetime:
+                tcases.append(Case(trysign_line(k.H, k.blob(c), gen_msg(rng), auxof.get(id(k)) if rng.random() < 0.3 else None), "trysign/in-memory-key",
+                                   {"key": k, "c": c}))
+    for c, a, b in ctx.both(tcases, lambda c, a: cls_of(a) + " sk=" + str(fields(a).get("sk"))):
+        k, cnt = c.meta["key"], c.meta["c"]
+        if not a.startswith("ok") or unhx(fields(a).get("sk", "")) != successor(k, cnt):
+            ctx.fail("after try_sign the in-memory signing key does not hold the complete successor key", [c.line], a[-200:], "sk=" + hx(successor(k, cnt)))
     for c, a, b in ctx.both(cases, proj):
         k, cnt, cb = c.meta["key"], c.meta["c"], c.meta["cb"]
         if a.startswith("panic"):
